@@ -18,11 +18,11 @@ Theorem lets_with_empty_side_is_an_error : forall rec ls s, run_lets rec ls [] s
 Proof. intros rec ls s. unfold run_lets. destruct ls; reflexivity. Qed.
 
 (* f(...) with no argument: an argument-count error, the state untouched *)
-Theorem empty_spread_call_is_an_error : forall rec c cl s,
+Theorem empty_spread_call_is_an_error : forall cancel_at rec c cl s,
   nth_error (st_closures (r_st s)) c = Some cl -> cl_vararg cl = false -> 1 <= length (cl_params cl) ->
-  call_function rec (VFunc c) [] true false s = arity_error (length (cl_params cl)) 0 s.
+  call_function cancel_at rec (VFunc c) [] true false s = arity_error (length (cl_params cl)) 0 s.
 Proof.
-  intros rec c cl s Hc Hv H1. unfold call_function. rewrite Hc, Hv. cbv zeta. cbn [negb andb length].
+  intros cancel_at rec c cl s Hc Hv H1. unfold call_function. rewrite Hc, Hv. cbv zeta. cbn [negb andb length].
   destruct (length (cl_params cl) <? 1) eqn:E; [apply Nat.ltb_lt in E; lia|].
   cbn. destruct (length (cl_params cl) =? 0), (length (cl_params cl) <? 0); reflexivity.
 Qed.
